@@ -21,5 +21,19 @@ for f in sorted(os.listdir(os.path.join(os.path.dirname(vocab.__file__), 'rules'
     out[pid] = vocab.baseline(run)
     print(pid, 'rules', len(out[pid]), 'functions', sum(len(v) for v in out[pid].values()),
           'names', sum(len(n) for v in out[pid].values() for n in v.values()), '(non-discharged obligations: %d)' % len(bad))
+import ast, warnings
+from pytough_sa.core import MODULES, REPO
+nb = {}
+for m in MODULES:
+    with warnings.catch_warnings():
+        warnings.simplefilter('ignore')
+        t = ast.parse(open(os.path.join(REPO, m + '.py'), encoding='utf-8', errors='replace').read())
+    names = set()
+    for f in ast.walk(t):
+        if isinstance(f, ast.FunctionDef):
+            for g in ast.walk(f):
+                if isinstance(g, ast.FunctionDef) and g is not f: names.add('%s.%s' % (f.name, g.name))
+    nb[m] = sorted(names)
+out['_nested_baseline'] = nb
 out['_analyser_digest'] = vocab.analyser_digest()
 json.dump(out, open(vocab.PATH, 'w'), indent=0, sort_keys=True)
